@@ -95,6 +95,7 @@ def run_function(world: World, c: Contract) -> tuple[Exec, FnResult]:
     node = mod.find(c.qual)
     ex = Exec(world)
     ex.track_alloc = bool(getattr(c, "track_alloc", False))
+    ex.deep_feasibility = bool(getattr(c, "deep_feasibility", False))
     is_gen = world.is_contextmanager(node)
 
     def runner():
@@ -170,9 +171,11 @@ def run_function(world: World, c: Contract) -> tuple[Exec, FnResult]:
 # ------------------------------------------------------------------ discharge
 
 
-def _check_z3(axioms, pc, goal, timeout_ms):
+def _check_z3(axioms, pc, goal, timeout_ms, mbqi=True):
     s = z3.Solver()
     s.set("timeout", timeout_ms)
+    if not mbqi:
+        s.set("smt.mbqi", False)
     for a in axioms:
         s.add(a)
     for p in pc:
@@ -360,7 +363,12 @@ def discharge(world: World, ex: Exec, res: FnResult, use_cvc5=True, params_by_pa
                     rb, sb = _check_z3(ground + small, o.pc, o.formula, quick)
                     if rb == z3.sat:
                         s1 = sb
-            # 2. full query, short budget
+            # 2. full query, short budget; E-matching only first (z3's model-based quantifier instantiation can overrun its
+            #    timeout by minutes on these formulas; `unsat` without it is just as sound)
+            if has_q:
+                r0, s0 = _check_z3(axioms, o.pc, o.formula, quick, mbqi=False)
+                if r0 == z3.unsat:
+                    continue
             r, s = _check_z3(axioms, o.pc, o.formula, quick) if len(ground) - 131 != len(axioms) else (r1, s1)
             if r == z3.unsat:
                 continue
